@@ -19,6 +19,14 @@ def run():
     for v in ("inc", "dec"):
         r = vlib.model_check("ActivityImplMC", "ActivityImpl_%s.cfg" % v, expect_ok=False, timeout=600)
         chk.add_model("ActivityImpl/variant %s (must violate)" % v, r, note="violated: %s" % r["violated"])
+    chk.add_model("StopOrderImpl (stop(): wait for finalize, then for idleness; work submitted until finalize)",
+                  vlib.model_check("StopOrderImpl", "StopOrderImpl.cfg", timeout=600))
+    rs = vlib.model_check("StopOrderImpl", "StopOrderImpl_dev.cfg", expect_ok=False, timeout=600)
+    chk.add_model("StopOrderImpl/variant idle_before_finalize (must violate)", rs, note="violated: %s" % rs["violated"])
+    chk.add_model("PuSuspendImpl (suspend / resume of the workers behind pika::suspend / resume)",
+                  vlib.model_check("PuSuspendImpl", "PuSuspendImpl.cfg", timeout=600))
+    rp = vlib.model_check("PuSuspendImpl", "PuSuspendImpl_dev.cfg", expect_ok=False, timeout=600)
+    chk.add_model("PuSuspendImpl/variant resume_notifies_once (must violate)", rp, note="violated: %s" % rp["violated"])
     (binary,) = vlib.build_harness(["life_harness"])
     nruns = 128 if chk.thorough() else 32
     ninc = 12 if chk.thorough() else 8
